@@ -548,3 +548,8 @@ mod tests {
         assert_ne!(a.digest(), c.digest());
     }
 }
+
+// Verification hook (/verif): contract proof harnesses; compiled only by `cargo kani`.
+#[cfg(kani)]
+#[path = "/verif/kani/splits.rs"]
+mod verif_kani;
